@@ -24,6 +24,8 @@ FILES = {
     "nest.py": ("class Outer:\n    class Inner:\n        class Deep:\n            pass\n\n\n"
                 # an outer class whose name ends like the module `foo`: `foo.` occurs inside `Myfoo.Inner`
                 "class Myfoo:\n    class Inner:\n        pass\n"),
+    # ordinary classes that share their names with typing constructs
+    "shapes.py": "class List:\n    pass\n\n\nclass Set:\n    pass\n\n\nclass Union:\n    pass\n\n\nclass TypedDict:\n    pass\n\n\nclass Generator:\n    pass\n\n\nclass Any:\n    pass\n",
     "target.py": ("class Own:\n    pass\n\n\ndef f(a, b):\n    return a\n\n\ndef g(n):\n    yield n\n\n\n"
                   "class K:\n    def m(self, x):\n        return x\n"),
 }
@@ -41,9 +43,9 @@ def setup_fixture(pd, tag):
             f.write(src)
     sys.path.insert(0, root)
     importlib.invalidate_caches()
-    for name in ("utils", "pkg", "pkg.utils", "foo", "barfoo", "nest", "target"):
+    for name in ("utils", "pkg", "pkg.utils", "foo", "barfoo", "nest", "shapes", "target"):
         sys.modules.pop(name, None)
-    for name in ("utils", "pkg", "pkg.utils", "foo", "barfoo", "nest", "target"):
+    for name in ("utils", "pkg", "pkg.utils", "foo", "barfoo", "nest", "shapes", "target"):
         mods[name] = importlib.import_module(name)
     return root, mods
 
@@ -52,7 +54,7 @@ def teardown_fixture(root):
     import sys
     if root in sys.path:
         sys.path.remove(root)
-    for name in ("utils", "pkg", "pkg.utils", "foo", "barfoo", "nest", "target"):
+    for name in ("utils", "pkg", "pkg.utils", "foo", "barfoo", "nest", "shapes", "target"):
         sys.modules.pop(name, None)
 
 
@@ -65,7 +67,9 @@ class Gen(types_gen.TypeGen):
         user = [mods["utils"].A, mods["utils"].B, mods["pkg"].PkgCls, mods["pkg.utils"].B, mods["pkg.utils"].C,
                 mods["foo"].foo, mods["foo"].foo.Inner, mods["foo"].Baz, mods["barfoo"].Bar, mods["barfoo"].NoneTypeHolder,
                 mods["nest"].Outer, mods["nest"].Outer.Inner, mods["nest"].Outer.Inner.Deep, mods["nest"].Myfoo.Inner,
-                mods["target"].Own, io.StringIO, io.BytesIO]
+                mods["target"].Own, io.StringIO, io.BytesIO,
+                mods["shapes"].List, mods["shapes"].Set, mods["shapes"].Union, mods["shapes"].TypedDict, mods["shapes"].Generator,
+                mods["shapes"].Any]
         self.atoms = [cid(int), cid(str), cid(type(None)), cid(float), cid(bool)]
         self.classes = [cid(c) for c in user]
         self.type_of = [("typeOf", str(tbl.of(c))) for c in (mods["utils"].A, mods["pkg.utils"].B, int, mods["nest"].Outer.Inner)]
@@ -161,16 +165,30 @@ def run(pid, tier, seed):
                 continue
             chk.evaluations += 1
             case = {"a": sexp.dumps(raws[0]), "b": sexp.dumps(raws[1]), "ret": sexp.dumps(raws[2])}
-            which = i % 3
+            which = i % 4
+            # comps: (function, position, class-name hint, type, index of the component inside the return annotation or None)
             if which == 0:
                 traces = [CallTrace(target.f, {"a": pys[0], "b": pys[1]}, pys[2])]
                 expect = {("f", "a"): raws[0], ("f", "b"): raws[1], ("f", "return"): raws[2]}
+                comps = [("f", "a", "a", raws[0], None), ("f", "b", "b", raws[1], None), ("f", "return", "f", raws[2], None)]
             elif which == 1:
                 traces = [CallTrace(target.g, {"n": pys[0]}, None, pys[1])]
                 expect = {("g", "n"): raws[0], ("g", "return"): ("iterator", raws[1])}
-            else:
+                comps = [("g", "n", "n", raws[0], None), ("g", "return", "gYield", raws[1], 0)]
+            elif which == 2:
                 traces = [CallTrace(target.K.m, {"self": target.K, "x": pys[0]}, pys[2])]
                 expect = {("K.m", "x"): raws[0], ("K.m", "return"): raws[2]}
+                comps = [("K.m", "x", "x", raws[0], None), ("K.m", "return", "K_m", raws[2], None)]
+            elif raws[2] == ("cls", "9"):
+                # (a generator whose only return value is None is an Iterator[Y], as above)
+                traces = [CallTrace(target.g, {"n": pys[0]}, pys[2], pys[1])]
+                expect = {("g", "n"): raws[0], ("g", "return"): ("iterator", raws[1])}
+                comps = [("g", "n", "n", raws[0], None), ("g", "return", "gYield", raws[1], 0)]
+            else:
+                # a generator that yields and returns: Generator[Y, None, R], the two parts rewritten under different hints
+                traces = [CallTrace(target.g, {"n": pys[0]}, pys[2], pys[1])]
+                expect = {("g", "n"): raws[0], ("g", "return"): ("generator", raws[1], ("cls", "9"), raws[2])}
+                comps = [("g", "n", "n", raws[0], None), ("g", "return", "g", raws[2], 2), ("g", "return", "gYield", raws[1], 0)]
             k = 10
             try:
                 text = build_module_stubs_from_traces(traces, k)["target"].render()
@@ -178,12 +196,9 @@ def run(pid, tier, seed):
                 chk.fail("render-error", dict(case, error=repr(e)))
                 continue
             # known-finding predicates, evaluated by the Lean model
-            hints = {"a": "a", "b": "b", "n": "n", "x": "x"}
             kf = []
-            for (fn, pos), raw in expect.items():
-                hint = hints.get(pos) or (fn.replace(".", "_") + ("Yield" if fn == "g" else ""))
-                inner = raw[1] if (fn == "g" and pos == "return") else raw
-                g = drv.ask(("tdNames", Q(hint), inner))
+            for fn, pos, hint, craw, _ in comps:
+                g = drv.ask(("tdNames", Q(hint), craw))
                 kf.append([str(x) for x in g[0]])
             all_names = [n for ns in kf for n in ns]
             collision = len(set(all_names)) != len(all_names)
@@ -203,7 +218,62 @@ def run(pid, tier, seed):
                     for part in td_free_parts(raw):
                         if drv.ask(("denote", Q("target"), tuple(sig_raws), part))[0] != "true":
                             names_bad = True
+            # the model with generated classes (Model/TDStub.lean): every component rendered under its hint, the classes of the
+            # whole stub as the environment
+            sig = tuple((Q(h), craw) for _, _, h, craw, _ in comps)
+            tdm = []
+            for ci in range(len(comps)):
+                g = drv.ask(("denoteT", Q("target"), sig, str(ci), tuple(expect.values())))
+                tdm.append({"namesOk": g[0] == "true", "classesIn": g[1] == "true", "text": str(g[2]),
+                            "tree": None if g[3] == "none" else tyconv.canon(g[3]), "classes": [str(x) for x in g[4]]})
+                if g[0] != "true":
+                    names_bad = True
+                if g[5] == "true":
+                    clash = True      # (the import block of this stub, `from mypy_extensions import TypedDict` included)
             real = {}
+            try:
+                ev = stubeval.EvaluatedStub(text, own)
+                # generated classes: the model's class texts, in stub order, against the class blocks of the real stub
+                import ast as _ast
+                real_classes = [_ast.dump(n) for n in _ast.parse(text).body
+                                if isinstance(n, _ast.ClassDef) and "TypedDict__RENAME_ME__" in n.name]
+                try:
+                    model_classes = [_ast.dump(_ast.parse(c).body[0]) for c in (tdm[0]["classes"] if tdm else [])]
+                except SyntaxError:
+                    model_classes = ["<unparsable>"]
+                if any(has_td(c[3]) for c in comps):
+                    chk.rel("corr.C11.tdClasses", model_classes == real_classes,
+                            dict(case, model=(tdm[0]["classes"] if tdm else []), stub=text[:1500]))
+                all_in = all(m["classesIn"] for m in tdm)
+                for (fn, pos, hint, craw, idx), m in zip(comps, tdm):
+                    node = ev.funcs[fn]
+                    an = node.returns if pos == "return" else next(
+                        a.annotation for a in node.args.posonlyargs + node.args.args + node.args.kwonlyargs if a.arg == pos)
+                    if an is None:
+                        continue
+                    if idx is not None:
+                        sl = an.slice
+                        an = sl.elts[idx] if isinstance(sl, _ast.Tuple) else sl
+                    c2 = dict(case, position=[fn, pos, hint], impl=_ast.unparse(an), model=m["text"])
+                    chk.rel("corr.C11.stubTextTD", norm_text(m["text"]) == ast_text(an), c2)
+                    try:
+                        rtree = tyconv.canon(ev.resolve(ev.annotation(an), tbl))
+                    except stubeval.StubError:
+                        rtree = None
+                    if all_in:
+                        # (with a class-name collision the stub's meaning depends on definition order and Python resolves the
+                        # base class at definition time, the model at the end: only compared when every class is in place)
+                        chk.rel("corr.C11.evalTD", m["tree"] == rtree,
+                                dict(c2, impl=None if rtree is None else sexp.dumps(rtree),
+                                     model=None if m["tree"] is None else sexp.dumps(m["tree"])))
+                    chk.count("namesOkT.%s.classesIn.%s" % (m["namesOk"], m["classesIn"]))
+                    if m["namesOk"] and m["classesIn"] and rtree != tyconv.canon(craw):
+                        # hypotheses of MT.C11.rendered_denotes hold in the model, the implementation's annotation does not denote the type
+                        chk.rel("corr.C11.namesOkT", False, dict(c2, denotes=None if rtree is None else sexp.dumps(rtree)))
+                    elif m["namesOk"] and m["classesIn"]:
+                        chk.rel("corr.C11.namesOkT", True, c2)
+            except stubeval.StubError:
+                pass
             try:
                 ev = stubeval.EvaluatedStub(text, own)
                 for (fn, pos), raw in expect.items():
@@ -250,7 +320,7 @@ def run(pid, tier, seed):
                 finding = None
                 if collision and e.clause in ("duplicate-class", "denotes"):
                     finding = "KF-C11-td-class-name-collision"
-                elif clash and names_bad and e.clause == "denotes":
+                elif clash and names_bad and e.clause in ("denotes", "class-body", "annotation"):
                     # both: two modules contribute one imported name (rootClash) and the model's namespace resolves some name of
                     # the rendered annotation to something else than what was rendered (¬ namesOk, the excluded hypothesis of
                     # MT.C11.rendered_denotes)
